@@ -221,7 +221,7 @@ func (in *Interp) resetPath(prefix []uint64) {
 	in.outputs, in.reachedP = nil, nil
 	in.callDepth = 0
 	in.unknownOnPath = 0
-	in.monitor, in.foreign, in.mapRev = false, nil, false
+	in.monitor, in.foreign, in.mapRev, in.syncDepth = false, nil, false, 0
 	in.epoch++
 	in.pathEpoch = in.epoch
 	in.initTasks()
